@@ -33,7 +33,8 @@ static std::string SPACE = "quick";
 
 enum { C_REL = CNT_USER, C_TERM, C_NONTERM, C_EMPTYREL, C_SHAPE_EXACT, C_SHAPE_SOUND_ONLY, C_PAIR_CUT, C_PAIR_CUT_EMPTY,
        C_TRUE_ANSWERS, C_FALSE_ANSWERS, C_MU_CHECKED, C_SPACE_EQ, C_SPACE_SUBSET, C_GEN_EVAL, C_INPUTS, C_TERM_N1, C_TERM_N2,
-       C_REL_N1, C_REL_N2, C_NONEMPTY_SPACES, C_UNDETECTED_EMPTY, C_PR2_LOOSE_INCOMPLETE, C_PAIR_TIGHT, C_PAIR_LOOSE };
+       C_REL_N1, C_REL_N2, C_NONEMPTY_SPACES, C_UNDETECTED_EMPTY, C_PR2_LOOSE_INCOMPLETE, C_PAIR_TIGHT, C_PAIR_LOOSE,
+       C_CP, C_CP_RGT, C_CP_REQ, C_CP_RLT, C_CP_TERM, C_CP_NONTERM, C_CP_EMPTY, C_CP_BOUNDED_FAIL_ONLY };
 
 // ------------------------------------------------------------------ menus
 struct GM { char t; std::vector<long> v; };
@@ -85,7 +86,7 @@ static void build_menus() {
                { } };
 }
 
-struct Item { unsigned char n, np, nr; signed char l; unsigned char p[4], r[2]; };
+struct Item { unsigned char n, np, nr; signed char l; unsigned char p[4], r[2]; unsigned char kind; unsigned short bm, am; };   // kind 1: constraint-built pair (masks into BROWS / AROWS)
 static std::vector<Item> ITEMS;
 
 static void build_items(int n, int maxp, int maxr, int maxl, int plimit, const std::function<bool(int, int, bool)>& keep = std::function<bool(int, int, bool)>()) {
@@ -114,6 +115,58 @@ static void build_items(int n, int maxp, int maxr, int maxl, int plimit, const s
       }
   }
 }
+
+// ---- second family: before/after pairs built FROM CONSTRAINTS (guard rows over x, update rows over (x', x)), so that the numbers
+// r, s of inequality rows contributed by pset_before / pset_after vary independently (r > s, r == s, r < s) and every row of the
+// guard can be the one a (non-)existence argument hinges on.  The denoted relation is after /\ cylinder(before); its generators are
+// obtained with the brute-force reference double description (ref/dd.hh), never with PPL.
+static std::vector<CN> BROWS[3], AROWS[3];
+static void build_row_menus() {
+  using ref::GE; using ref::EQ;
+  BROWS[1] = { CN(LE({1}, 0), GE), CN(LE({-1}, 5), GE), CN(LE({-1}, 10), GE), CN(LE({1}, -2), GE) };            // x>=0, x<=5, x<=10, x>=2
+  AROWS[1] = { CN(LE({-1, 1}, -1), GE), CN(LE({1, -1}, -1), GE), CN(LE({1, -1}, 1), EQ), CN(LE({-1, 1}, 0), GE), CN(LE({-2, 1}, 0), GE) };
+                                                                                                               // x'<=x-1, x'>=x+1, x'=x-1, x'<=x, 2x'<=x
+  BROWS[2] = { CN(LE({1, 0}, 0), GE), CN(LE({-1, 0}, 5), GE), CN(LE({0, 1}, 0), GE), CN(LE({0, -1}, 10), GE),   // x>=0, x<=5, y>=0, y<=10
+               CN(LE({0, -1}, 5), GE), CN(LE({-1, 0}, 10), GE), CN(LE({-1, -1}, 8), GE), CN(LE({1, -1}, 0), GE) }; // y<=5, x<=10, x+y<=8, x>=y
+  AROWS[2] = { CN(LE({0, -1, 0, 1}, -1), GE),     // y' <= y-1
+               CN(LE({-1, 0, 1, 0}, -1), GE),     // x' <= x-1
+               CN(LE({1, 0, -1, 0}, -1), GE),     // x' >= x+1
+               CN(LE({0, 1, 0, -1}, -1), GE),     // y' >= y+1
+               CN(LE({-1, -1, 1, 1}, -1), GE),    // x'+y' <= x+y-1
+               CN(LE({1, 0, -1, 0}, 0), EQ),      // x' = x
+               CN(LE({0, 1, 0, -1}, 1), EQ),      // y' = y-1
+               CN(LE({1, 0, -1, 0}, 1), EQ),      // x' = x-1
+               CN(LE({0, -1, 0, 1}, 0), GE) };    // y' <= y
+}
+static void build_pair_items(int n, int maxb, int maxa) {
+  int B = (int)BROWS[n].size(), A = (int)AROWS[n].size();
+  for (unsigned bm = 0; bm < (1u << B); ++bm) {
+    if (__builtin_popcount(bm) > maxb) continue;
+    for (unsigned am = 1; am < (1u << A); ++am) {
+      if (__builtin_popcount(am) > maxa) continue;
+      Item it; memset(&it, 0, sizeof it); it.n = n; it.l = -1; it.kind = 1; it.bm = bm; it.am = am;
+      ITEMS.push_back(it);
+    }
+  }
+}
+static std::string rows_text(const std::vector<CN>& menu, unsigned mask, bool after, int n) {
+  std::string s;
+  for (size_t i = 0; i < menu.size(); ++i) if (mask & (1u << i)) {
+    std::string t = menu[i].str();
+    // LE::str names dimensions A, B, ...: rename to x', y', x, y
+    std::string o;
+    for (size_t k = 0; k < t.size(); ++k) {
+      char ch = t[k];
+      if (ch >= 'A' && ch <= 'D') { int d = ch - 'A'; const char* nm1[] = {"x"}; const char* nm2[] = {"x", "y"};
+        int v = after ? (d % n) : d; o += (n == 1 ? nm1[v] : nm2[v]); if (after && d < n) o += "'"; }
+      else o += ch;
+    }
+    if (!s.empty()) s += ", ";
+    s += o;
+  }
+  return s.empty() ? "(universe)" : s;
+}
+static std::string item_text(const Item& it);
 
 static std::vector<GM> item_gens(const Item& it) {
   std::vector<GM> g;
@@ -161,6 +214,10 @@ static Gens ref_gens(const std::vector<GM>& g) {
   Gens o;
   for (size_t i = 0; i < g.size(); ++i) { Gen x; x.t = g[i].t; for (size_t j = 0; j < g[i].v.size(); ++j) x.v.push_back(Q(g[i].v[j])); o.push_back(x); }
   return o;
+}
+static std::string item_text(const Item& it) {
+  if (it.kind == 1) return "before {" + rows_text(BROWS[it.n], it.bm, false, it.n) + "} after {" + rows_text(AROWS[it.n], it.am, true, it.n) + "}";
+  return gm_text(item_gens(it));
 }
 static bool gm_zero(const GM& g) { for (size_t i = 0; i < g.v.size(); ++i) if (g.v[i]) return false; return true; }
 
@@ -518,7 +575,68 @@ static void shape_variant(const char* name, const C_Polyhedron& ph, const std::v
   }
 }
 
+template <typename PH>
+static void cpair_calls(const char* vname, const PH& pb, const PH& pa, const Ctx& base, const Oracle& oC, long long& sub, long long sub_start) {
+  count(C_INPUTS);
+  for (int fn = 0; fn < NFN; ++fn) {
+    long long my = sub++;
+    if (!pool().want(my, sub_start)) continue;
+    pool().step(my);
+    Res r; call_pair(pb, pa, fn, r);
+    Ctx c = base; c.variant = vname; c.fn = FN2[fn];
+    judge(c, fn, r, oC);
+  }
+}
+
+static void run_pair_item(long long item, long long sub_start) {
+  const Item& it = ITEMS[item];
+  int n = it.n, dim = 2 * n;
+  CMPMEMO.clear();
+  C_Polyhedron pb(n, PPL::UNIVERSE), pa(dim, PPL::UNIVERSE);
+  NNC_Polyhedron nb(n, PPL::UNIVERSE), na(dim, PPL::UNIVERSE);
+  Cell cb(n), ca(dim);
+  for (size_t i = 0; i < BROWS[n].size(); ++i) if (it.bm & (1u << i)) { pb.add_constraint(BROWS[n][i].ppl()); nb.add_constraint(BROWS[n][i].ppl()); cb.rows.push_back(BROWS[n][i].row(n)); }
+  for (size_t i = 0; i < AROWS[n].size(); ++i) if (it.am & (1u << i)) { pa.add_constraint(AROWS[n][i].ppl()); na.add_constraint(AROWS[n][i].ppl()); ca.rows.push_back(AROWS[n][i].row(dim)); }
+  Oracle oC; bool tight = true, before_empty = false;
+  {
+    RefGuard guard;
+    Gens bg, cg;
+    before_empty = !ref::gens_of_closed_cell(cb, bg);
+    if (!before_empty) {
+      Cell m = ca;
+      ref::Rows pbr = ref::place(cb.rows, dim, n);
+      m.rows.insert(m.rows.end(), pbr.begin(), pbr.end());
+      if (!ref::gens_of_closed_cell(m, cg)) cg.clear();
+    }
+    oC = make_oracle(n, cg);
+    tight = oC.empty || before_tight(n, bg, cg);
+  }
+  if (sub_start == 0 && pool().only_sub < 0) {
+    count(C_CP); count(tight ? C_PAIR_TIGHT : C_PAIR_LOOSE);
+    // r, s as the library will see them: inequality rows of the minimized systems, an equality counting twice
+    int r = 0, sct = 0;
+    { const PPL::Constraint_System& c1 = pb.minimized_constraints(); for (PPL::Constraint_System::const_iterator i = c1.begin(); i != c1.end(); ++i) r += i->is_equality() ? 2 : 1; }
+    { const PPL::Constraint_System& c2 = pa.minimized_constraints(); for (PPL::Constraint_System::const_iterator i = c2.begin(); i != c2.end(); ++i) sct += i->is_equality() ? 2 : 1; }
+    count(r > sct ? C_CP_RGT : r == sct ? C_CP_REQ : C_CP_RLT);
+    if (oC.empty) count(C_CP_EMPTY); else if (oC.exists) count(C_CP_TERM); else {
+      count(C_CP_NONTERM);
+      // non-termination that hinges on the lower bound: some function decreases on every transition but none of them is bounded below
+      RefGuard guard; if (!ref::is_empty(oC.dec)) count(C_CP_BOUNDED_FAIL_ONLY);
+    }
+  }
+  if (VERBOSE) fprintf(stderr, "constraint pair n=%d %s\n  relation (reference DD): %s\n  oracle: empty=%d exists=%d tight=%d\n  MS space %s\n  PR space %s\n", n, item_text(it).c_str(),
+                       oC.text.c_str(), (int)oC.empty, (int)oC.exists, (int)tight, ref::cell_str(oC.ms).c_str(), ref::cell_str(oC.pr).c_str());
+  Ctx base; base.item = item; base.n = n; base.gens = "after {" + rows_text(AROWS[n], it.am, true, n) + "}"; base.before = "{" + rows_text(BROWS[n], it.bm, false, n) + "}";
+  base.precise = true; base.precise_pr = tight; base.universe_expected = before_empty;
+  base.trigger = oC.empty ? (before_empty ? "before_empty" : "before_after_disjoint") : "none";
+  long long sub = 0;
+  cpair_calls("C_Polyhedron pair (from constraints)", pb, pa, base, oC, sub, sub_start);
+  cpair_calls("NNC_Polyhedron pair (from constraints)", nb, na, base, oC, sub, sub_start);
+  count(CNT_STATES);
+}
+
 static void run_item(long long item, long long sub_start) {
+  if (ITEMS[item].kind == 1) { run_pair_item(item, sub_start); return; }
   ProfT pt0("run_item:total");
   const Item& it = ITEMS[item];
   int n = it.n, dim = 2 * n;
@@ -695,6 +813,7 @@ int main(int argc, char** argv) {
   ARGS = parse_args(argc, argv);
   sink().open(ARGS.out);
   build_menus();
+  build_row_menus();
   long long only_item = atoll(ARGS.opt("--item", "-1").c_str());
   SPACE = ARGS.opt("--space", ARGS.tier);
   STRICT_PR2 = ARGS.has("--strict-pr2");
@@ -706,21 +825,27 @@ int main(int argc, char** argv) {
     if (only_item < 0) { fprintf(stderr, "replay file has no item index\n"); return 2; }
   }
   // the enumerated space:  (max points, max rays, lines?, point menu prefix) per n
-  std::string bound;
+  std::string bound, pairbound;
   if (SPACE == "thorough") {
     // sized to about 2 600 CPU seconds (the library calls dominate: ~130 calls of ~100 us per relation)
     build_items(1, 4, 2, 1, 16, [](int np, int, bool line) { return !line || np <= 2; });
     build_items(2, 4, 2, 1, 12, [](int np, int nr, bool line) { return np <= 3 || (nr <= 1 && !line); });
+    build_pair_items(1, 4, 3); build_pair_items(2, 4, 3);
+    pairbound = "<=4 guard rows x <=3 update rows";
     bound = "n=1: every generator system of 1..4 points from {-1,0,1,2}^2 (16) + <=2 rays of 8 + <=1 line of 3 (a line only with <=2 points); "
             "n=2: 1..4 points of a 12-point menu in {-1,0,1,2}^4 + <=2 rays of 7 + <=1 line of 4 (with 4 points: <=1 ray, no line); plus the empty relation";
   } else if (SPACE == "tiny") {
     build_items(1, 2, 1, 1, 16);
     build_items(2, 2, 1, 1, 8);
+    build_pair_items(1, 2, 1); build_pair_items(2, 3, 1);
+    pairbound = "tiny";
     bound = "tiny (development)";
   } else {
     // sized to about 350 CPU seconds
     build_items(1, 3, 1, 1, 16, [](int np, int, bool line) { return !line || np <= 2; });
     build_items(2, 3, 1, 1, 10);
+    build_pair_items(1, 3, 2); build_pair_items(2, 3, 2);
+    pairbound = "<=3 guard rows x <=2 update rows";
     bound = "n=1: every generator system of 1..3 points from {-1,0,1,2}^2 (16) + <=1 ray of 8 + <=1 line of 3 (a line only with <=2 points); "
             "n=2: 1..3 points of the first 10 menu points in {-1,0,1,2}^4 + <=1 ray of 7 + <=1 line of 4; plus the empty relation";
   }
@@ -734,7 +859,10 @@ int main(int argc, char** argv) {
     for (size_t i = 0; i < key.size(); ++i) perm[i] = ITEMS[key[i].second];
     ITEMS.swap(perm);
   }
-  bound += "; each as C_Polyhedron, NNC_Polyhedron (<=3 closure-point patterns), BD_Shape/Octagonal_Shape<mpq_class>/Rational_Box, "
+  bound += "; PLUS before/after pairs built from constraints (" + pairbound + "): every subset of the guard menu {x>=0,x<=5,y>=0,y<=10,y<=5,x<=10,x+y<=8,x>=y} "
+           "(n=1: {x>=0,x<=5,x<=10,x>=2}) with every non-empty subset of the update menu {y'<=y-1,x'<=x-1,x'>=x+1,y'>=y+1,x'+y'<=x+y-1,x'=x,y'=y-1,x'=x-1,y'<=y} "
+           "(n=1: {x'<=x-1,x'>=x+1,x'=x-1,x'<=x,2x'<=x}), as C_Polyhedron and NNC_Polyhedron pairs, so that pset_before contributes more, as many and fewer inequality rows than pset_after";
+  bound += "; generator-built relations each as C_Polyhedron, NNC_Polyhedron (<=3 closure-point patterns), BD_Shape/Octagonal_Shape<mpq_class>/Rational_Box, "
            "before/after pairs (projection, universe, 4 cutting `before' sets, NNC pair, 3 shape pairs); 7 entry points each; "
            "exact answers/spaces demanded for closed and NNC polyhedra, shapes (on their own constraints) and pairs (relation = after /\\ cylinder(before); "
            "the PR_2 entry points are judged for completeness only when pset_before equals the projection of that relation on x), soundness everywhere";
@@ -763,7 +891,7 @@ int main(int argc, char** argv) {
   Pool::CrashFn cf = [&](long long item, long long sub, int sig, bool confirmed) {
     if (!confirmed) return;
     const Item& it = ITEMS[item];
-    Ctx c; c.item = item; c.n = it.n; c.gens = gm_text(item_gens(it)); c.variant = "sub-step " + std::to_string(sub); c.fn = "(see --item " + std::to_string(item) + ")";
+    Ctx c; c.item = item; c.n = it.n; c.gens = item_text(it); c.variant = "sub-step " + std::to_string(sub); c.fn = "(see --item " + std::to_string(item) + ")";
     c.trigger = "none";
     report_violation("termination::(sub-step)", std::string("crash:") + signame(sig), "none", input_json(c), signame(sig), "normal return");
   };
@@ -780,7 +908,8 @@ int main(int argc, char** argv) {
   bool complete = counter(CNT_SKIPPED) == 0 && counter(CNT_REFCRASH) == 0;
   std::vector<std::string> samples;
   for (size_t i = 0; i < ITEMS.size(); i += std::max<size_t>(1, ITEMS.size() / 5))
-    samples.push_back(J().num("n", ITEMS[i].n).str("gens_xprime_x", gm_text(item_gens(ITEMS[i]))).done());
+    samples.push_back(J().num("n", ITEMS[i].n).str(ITEMS[i].kind == 1 ? "constraint_pair" : "gens_xprime_x", item_text(ITEMS[i])).done());
+  for (size_t i = 0, k = 0; i < ITEMS.size() && k < 2; ++i) if (ITEMS[i].kind == 1 && __builtin_popcount(ITEMS[i].bm) >= 2) { samples.insert(samples.begin() + k, J().num("n", ITEMS[i].n).str("constraint_pair", item_text(ITEMS[i])).done()); ++k; }
   J extra;
   extra.num("relations", counter(C_REL)).num("relations_n1", counter(C_REL_N1)).num("relations_n2", counter(C_REL_N2))
     .num("terminating_relations(affine ranking function exists)", counter(C_TERM)).num("terminating_n1", counter(C_TERM_N1)).num("terminating_n2", counter(C_TERM_N2))
@@ -792,6 +921,9 @@ int main(int argc, char** argv) {
     .num("non_empty_spaces_returned", counter(C_NONEMPTY_SPACES))
     .num("mu_space_exact_comparisons", counter(C_SPACE_EQ)).num("mu_space_inclusion_only_comparisons", counter(C_SPACE_SUBSET))
     .num("shapes_judged_exactly_on_own_constraints", counter(C_SHAPE_EXACT)).num("shapes_soundness_only", counter(C_SHAPE_SOUND_ONLY))
+    .num("constraint_built_pairs", counter(C_CP)).num("constraint_pairs_r_gt_s", counter(C_CP_RGT)).num("constraint_pairs_r_eq_s", counter(C_CP_REQ)).num("constraint_pairs_r_lt_s", counter(C_CP_RLT))
+    .num("constraint_pairs_terminating", counter(C_CP_TERM)).num("constraint_pairs_non_terminating", counter(C_CP_NONTERM)).num("constraint_pairs_empty_relation", counter(C_CP_EMPTY))
+    .num("constraint_pairs_non_terminating_only_because_unbounded_below", counter(C_CP_BOUNDED_FAIL_ONLY))
     .num("cutting_pairs", counter(C_PAIR_CUT)).num("cutting_pairs_with_empty_relation", counter(C_PAIR_CUT_EMPTY))
     .num("pairs_empty_only_by_disjointness", counter(C_UNDETECTED_EMPTY))
     .num("pairs_before_tight(PR_2 judged for completeness)", counter(C_PAIR_TIGHT)).num("pairs_before_loose(PR_2 judged for soundness only)", counter(C_PAIR_LOOSE))
